@@ -170,6 +170,14 @@ func c03SameBlock() *Scenario {
 
 var c03Owns = ownsAny("ent.order", "ent.locked", "ent.whitelist", "ent.transition", "ent.terminal_changed", "tx.accept_unexpected:ent.", "tx.reject_unexpected:ent.")
 
+// c03OutOfOrder: orders decided out of the order they were raised in. The second order has been accepted and
+// minted before anything happens to the first (queues, cursors and counters keyed on "ids only grow").
+func c03OutOfOrder() *Scenario {
+	s := c03Scenario("po-out-of-order", []string{"S1"}, 1, false)
+	s.Prefix = []string{"whitelist(S1,+P2)", "raise(P1,7)", "raise(P2,11)", "accept(S1,#2)", "wait(1s)", "wait(1s)"}
+	return s
+}
+
 func init() {
 	Checks["C03"] = func() *Check {
 		return &Check{
@@ -184,6 +192,10 @@ func init() {
 					Thorough: {Depth: 5, Budget: 8 * time.Minute, ReplayEvery: 16, MaxStates: 300000},
 				}},
 				{S: c03Scenario("po-1of1", []string{"S1"}, 1, false), Opt: map[Tier]Options{
+					Quick:    {Depth: 4, Budget: 60 * time.Second, ReplayEvery: 8},
+					Thorough: {Depth: 6, Budget: 5 * time.Minute, ReplayEvery: 16, MaxStates: 300000},
+				}},
+				{S: c03OutOfOrder(), Opt: map[Tier]Options{
 					Quick:    {Depth: 4, Budget: 60 * time.Second, ReplayEvery: 8},
 					Thorough: {Depth: 6, Budget: 5 * time.Minute, ReplayEvery: 16, MaxStates: 300000},
 				}},
